@@ -230,6 +230,25 @@ def callMut (st : St) (isDef : Bool) (l : LExp) (sel : LExp) (k : Int) (arg : RE
   let (res, st3) ← runMutBody st2 ⟨c, []⟩ sel k
   store st3 isDef l res
 
+/-- `l = f(&p)` with `func f(q *T) (r T) { … }`: the named result is a new variable of the callee, initialised to the zero
+    value; its value is assigned to the destination when the call returns (Calls; Return statements) -/
+def callNamed (st : St) (isDef : Bool) (l p : LExp) (sel1 : LExp) (k : Int) (sel2 sel3 : LExp) (zero : Val) : Except Err St := do
+  let pl ← resolve st p
+  let (c, st0) := st.alloc zero
+  let (res, st1) ← runNamedBody st0 ⟨c, []⟩ pl sel1 k sel2 sel3
+  store st1 isDef l res
+
+/-- `l1, l2 = sw()` with `func sw() (a, b T) { a, b = v1, v2; return b, a }`: the operands of a return statement are
+    evaluated before the results are assigned: the call yields (v2, v1) -/
+def retSwap (st : St) (isDef : Bool) (l1 l2 : LExp) (v1 v2 : Val) : Except Err St :=
+  if isDef then
+    match l1, l2 with
+    | .var x, .var y => .ok (declare (declare st x v2) y v1)
+    | _, _ => .error "ill:define"
+  else do
+    let ds ← resolveAll st [l1, l2]
+    writeAll st ds [v2, v1]
+
 def sop (G : Growth) (st : St) : SOp → Except Err St
   | .assign l r => assign st l r
   | .opassign l k => opassign st l k
@@ -246,6 +265,8 @@ def sop (G : Growth) (st : St) : SOp → Except Err St
   | .recv isDef l r => recv st isDef l r
   | .assert2 isDef x ok r succ zero rdx rdok => assert2 st isDef x ok r succ zero rdx rdok
   | .callMut isDef l sel k arg => callMut st isDef l sel k arg
+  | .callNamed isDef l p sel1 k sel2 sel3 zero => callNamed st isDef l p sel1 k sel2 sel3 zero
+  | .retSwap isDef l1 l2 v1 v2 => retSwap st isDef l1 l2 v1 v2
   | .show xs => .ok { st with out := st.out ++ [showLine st xs] }
 
 def sops (G : Growth) (st : St) : List SOp → St × Option Err
